@@ -9,6 +9,7 @@ import (
 	"reflect"
 	"sort"
 	"strings"
+	"sync/atomic"
 	"time"
 
 	"github.com/PapaCharlie/go-restli/v2/codegen/utils"
@@ -239,6 +240,9 @@ func (b *Bridge) EncodePU(rec string, pu *PU, excl []string) (outcome string, da
 
 // DecodePU unmarshals a JSON partial update with the real bindings.
 func (b *Bridge) DecodePU(rec string, data []byte, excl []string, ignore int) string {
+	if atomic.LoadInt32(&confirmedHangs) >= 3 {
+		return "hang"
+	}
 	for attempt := 0; ; attempt++ {
 		ch := make(chan string, 1)
 		go func() { ch <- b.decodePU1(rec, data, excl, ignore) }()
@@ -247,6 +251,7 @@ func (b *Bridge) DecodePU(rec string, data []byte, excl []string, ignore int) st
 			return out
 		case <-time.After(4 * time.Second):
 			if attempt == 1 {
+				atomic.AddInt32(&confirmedHangs, 1)
 				return "hang"
 			}
 		}
